@@ -102,14 +102,13 @@ impl<'n> TryFromNode<'n> for Field {
                 .cloned();
 
             let wanted = if node.tag_name().name() == "group" { Wanted::Type } else { Wanted::Element };
-            let ref_node = doc.find_node_by_xml_name(&node, xml_name, namespace.as_deref(), wanted);
-            let ref_node = ref_node
-                .as_ref()
-                .ok_or_else(|| WriterError::NodeNotFound(ref_name.to_string()))?;
+            // a member that refers to a component only needs its name: the component is not converted here (its
+            // own members may well refer back to the type that is being read)
+            if !doc.declares(&node, xml_name, namespace.as_deref(), wanted) {
+                return Err(WriterError::NodeNotFound(ref_name.to_string()));
+            }
 
             let module = namespace.as_ref().map(|n| n.rust_mod_name.clone());
-
-            let xml_name = ref_node.xml_name().ok_or(WriterError::InvalidReference)?;
             let rust_type = RustFieldType::Other(OtherRustType {
                 name: xml_name_to_rust_name(xml_name),
                 module,
